@@ -203,7 +203,8 @@ func Init(c Config) {
 		mean = 1
 	}
 	cur, nTasks, active = -1, 0, false
-	halting, nClosed, Deadlock = false, 0, false
+	halting, Deadlock = false, false
+	resetClosed()
 	nPend, rdvActive = 0, false
 	defLimit = c.DefaultOpLimit
 	if defLimit <= 0 {
@@ -271,25 +272,20 @@ func Init(c Config) {
 }
 
 // Spawn registers a task and starts its goroutine parked. May be called from
-// the main goroutine before Run, or from a running task.
+// the main goroutine before Run, or from a running task (any task: the
+// simulator's own bookkeeping is kept out of the race detector's sight, only
+// one task runs at a time).
 func Spawn(f func()) int {
-	id := nTasks
-	if id >= MaxTasks {
+	id := allocTask()
+	if id < 0 {
 		panic("zzsim: too many tasks")
 	}
-	nTasks++
-	t := &tasks[id]
-	t.state = stRunnable
-	t.opLimit = defLimit
-	if mode == ModePCT && !replay {
-		t.prio = int64(draw(1<<30)) + 1
-	}
-	if usePipe {
+	if pipeMode() {
 		var p [2]int
 		if err := syscall.Pipe(p[:]); err != nil {
 			panic(err)
 		}
-		t.rfd, t.wfd = p[0], p[1]
+		setPipe(id, p[0], p[1])
 	}
 	done.Add(1)
 	go func() {
@@ -298,21 +294,7 @@ func Spawn(f func()) int {
 		defer finish(id)
 		defer func() {
 			if r := recover(); r != nil {
-				switch r.(type) {
-				case HaltAbort, DeadlockAbort:
-					// the run is ending (exit / detected deadlock, which the
-					// oracles report): unwinding a task this way is expected
-				case BudgetExceeded:
-					if PanicHandler == nil {
-						TaskPanics++
-					}
-				default:
-					if PanicHandler != nil {
-						PanicHandler(id, r)
-					} else {
-						TaskPanics++
-					}
-				}
+				taskPanicked(id, r)
 			}
 		}()
 		f()
@@ -320,17 +302,62 @@ func Spawn(f func()) int {
 	return id
 }
 
+//go:norace
+func allocTask() int {
+	id := nTasks
+	if id >= MaxTasks {
+		return -1
+	}
+	nTasks++
+	t := &tasks[id]
+	t.state = stRunnable
+	t.opLimit = defLimit
+	if mode == ModePCT && !replay {
+		t.prio = int64(draw(1<<30)) + 1
+	}
+	return id
+}
+
+//go:norace
+func pipeMode() bool { return usePipe }
+
+//go:norace
+func setPipe(id, r, w int) { tasks[id].rfd, tasks[id].wfd = r, w }
+
+//go:norace
+func taskPanicked(id int, r interface{}) {
+	switch r.(type) {
+	case HaltAbort, DeadlockAbort:
+		// the run is ending (exit / detected deadlock, which the oracles
+		// report): unwinding a task this way is expected
+	case BudgetExceeded:
+		if PanicHandler == nil {
+			TaskPanics++
+		}
+	default:
+		if PanicHandler != nil {
+			PanicHandler(id, r)
+		} else {
+			TaskPanics++
+		}
+	}
+}
+
 // Go is what instrumented `go f()` statements call.
 func Go(f func()) {
-	if !active {
+	if !Active() {
 		go f()
 		return
 	}
 	// a goroutine started by the code under test works within the step budget
 	// of the operation that started it
-	lim := tasks[cur].opLimit
 	id := Spawn(f)
-	if lim < tasks[id].opLimit {
+	inheritLimit(id)
+}
+
+//go:norace
+func inheritLimit(id int) {
+	if lim := tasks[cur].opLimit; lim < tasks[id].opLimit {
 		tasks[id].opLimit = lim
 	}
 }
